@@ -36,7 +36,7 @@ struct fiber {
 	int choice;
 	void (*fn) (void *);
 	void *arg;
-	void *tls_waiter;
+	void *tls_waiter, *last_waiter;
 	void (*tls_dest) (void *);
 	void *fstack[FSTACK];
 	int fdepth;
@@ -47,6 +47,7 @@ struct fiber {
 	int woken, fault, fault_err;
 	int64_t pend_sec, pend_nsec; int pend_timed;  /* deadline of a parked OP_SEMPD */
 	int crashed;
+	int in_swc;
 	uint32_t vc[RT_MAXT];
 };
 
@@ -56,6 +57,7 @@ struct muocc { const void *mu; int writers, readers; char mode[RT_MAXT]; };
 struct hb_atom { const void *a; uint32_t vc[RT_MAXT]; };
 struct hb_plain { const void *a; uint32_t wt, wc; uint32_t rd[RT_MAXT]; };
 struct sym { uintptr_t a; char n[48]; };
+struct dead { const char *p; size_t n; int owner; char what[48]; };
 
 struct rtg {
 	ucontext_t mainctx;
@@ -87,6 +89,7 @@ struct rtg {
 	struct sym *sym; int nsym;
 	rt_ord_cb ord_cb;
 	char *altstack;
+	struct dead dead[16]; int ndead;
 	long alarm_steps;
 };
 static struct rtg *G;
@@ -94,6 +97,7 @@ static struct rtg *G;
 void (*rt_on_acquire) (void *mu, int writer, int tid);
 void (*rt_on_release) (void *mu, int writer, int tid);
 void (*rt_on_access) (void *addr, int size, int is_write, int tid);
+extern int rt_exit_is_step;
 int rt_sem_single_step = 1;
 int rt_binary_sem = 0;
 FILE *rt_log;
@@ -240,6 +244,13 @@ static void check_access (const void *addr, int size, int is_write, int atomic) 
 	int i;
 	(void) size;
 	if (!f) return;
+	for (i = 0; i < G->ndead; i++) {
+		if (c >= G->dead[i].p && c < G->dead[i].p + G->dead[i].n && G->dead[i].owner != (int) (f - G->f)) {
+			rt_violation ("O-mem", "%s%s of the %s of thread %d after the call that owned it returned (its stack frame may have been reused)",
+				      atomic ? "atomic " : "", is_write ? "write" : "read", G->dead[i].what, G->dead[i].owner + 1);
+			return;
+		}
+	}
 	if (c >= G->arena && c < G->arena + ARENA_SIZE) {
 		struct blk *b = find_blk (c);
 		if (b && b->freed) {
@@ -378,10 +389,11 @@ static void trampoline (int idx) {
 	struct fiber *f = &G->f[idx];
 	f->fn (f->arg);
 	if (f->tls_waiter && f->tls_dest) {
-		park (OP_EXIT, NULL, 0, 0, 0, 0, "exit");
+		if (rt_exit_is_step) park (OP_EXIT, NULL, 0, 0, 0, 0, "exit");
 		f->noyield++;
 		f->tls_dest (f->tls_waiter);
 		f->noyield--;
+		f->last_waiter = f->tls_waiter;
 		f->tls_waiter = NULL;
 	}
 	f->state = F_DONE;
@@ -448,6 +460,10 @@ void rt_grant_choice (int t, int choice) {
 void rt_grant (int t) { rt_grant_choice (t, 0); }
 void rt_fault_futex (int t, int err) { if (G->f[t].state == F_BLOCKED) { G->f[t].fault = 1; G->f[t].fault_err = err; } }
 void rt_track_stack_frames (int on) { G->track_stack = on; }
+void rt_dead_mark (const void *p, size_t n, int owner, const char *what) {
+	if (G->ndead < 16) { G->dead[G->ndead].p = p; G->dead[G->ndead].n = n; G->dead[G->ndead].owner = owner; snprintf (G->dead[G->ndead].what, sizeof G->dead[0].what, "%s", what); G->ndead++; }
+}
+void rt_dead_clear (int owner) { int i, j = 0; for (i = 0; i < G->ndead; i++) if (G->dead[i].owner != owner) G->dead[j++] = G->dead[i]; G->ndead = j; }
 
 void rt_point (const char *tag) { park (OP_CLIENT, NULL, 0, 0, 0, 0, tag); }
 int rt_choose (const char *tag) { park (OP_CLIENT, NULL, 0, 0, 0, 0, tag); return G->cur ? G->cur->choice : 0; }
@@ -467,6 +483,7 @@ static void crash_landing (void) {
 }
 static void on_signal (int sig, siginfo_t *si, void *ucv) {
 	ucontext_t *uc = ucv;
+	if (sig == SIGALRM && (!G || !G->cur)) return;
 	if (!G || !G->cur) {
 		static const char m[] = "rt: fatal signal outside a fiber\n";
 		if (write (2, m, sizeof m - 1)) {}
@@ -682,9 +699,9 @@ long __wrap_syscall (long nr, ...) {
 /* semaphore calls as single steps */
 struct nsync_semaphore_s_;
 struct timespec;
-void __real_nsync_mu_semaphore_p (struct nsync_semaphore_s_ *s);
-int __real_nsync_mu_semaphore_p_with_deadline (struct nsync_semaphore_s_ *s, struct timespec d);
-void __real_nsync_mu_semaphore_v (struct nsync_semaphore_s_ *s);
+void __real_nsync_mu_semaphore_p (struct nsync_semaphore_s_ *s) __attribute__ ((weak));
+int __real_nsync_mu_semaphore_p_with_deadline (struct nsync_semaphore_s_ *s, struct timespec d) __attribute__ ((weak));
+void __real_nsync_mu_semaphore_v (struct nsync_semaphore_s_ *s) __attribute__ ((weak));
 void __wrap_nsync_mu_semaphore_p (struct nsync_semaphore_s_ *s) {
 	struct fiber *f = G->cur;
 	if (rt_sem_single_step && f && !f->noyield) {
@@ -695,12 +712,14 @@ void __wrap_nsync_mu_semaphore_p (struct nsync_semaphore_s_ *s) {
 int __wrap_nsync_mu_semaphore_p_with_deadline (struct nsync_semaphore_s_ *s, struct timespec d) {
 	struct fiber *f = G->cur;
 	int r;
-	if (rt_sem_single_step && f && !f->noyield) {
+	if (rt_sem_single_step && f && (!f->noyield || (f->in_swc && f->noyield == 1))) {
+		int saved = f->noyield;
 		/* nsync_time_no_deadline has tv_sec = max time_t */
 		f->pend_timed = !(d.tv_sec == (time_t) (((uint64_t) 1 << 63) - 1));
 		f->pend_sec = d.tv_sec; f->pend_nsec = d.tv_nsec;
+		f->noyield = 0;
 		park (OP_SEMPD, s, 0, 0, 0, 0, NULL);
-		f->noyield++; r = __real_nsync_mu_semaphore_p_with_deadline (s, d); f->noyield--;
+		f->noyield = saved + 1; r = __real_nsync_mu_semaphore_p_with_deadline (s, d); f->noyield = saved;
 		f->last.res = (uint32_t) r;
 	} else r = __real_nsync_mu_semaphore_p_with_deadline (s, d);
 	return r;
@@ -712,6 +731,28 @@ void __wrap_nsync_mu_semaphore_v (struct nsync_semaphore_s_ *s) {
 		f->noyield++; __real_nsync_mu_semaphore_v (s); f->noyield--;
 	} else __real_nsync_mu_semaphore_v (s);
 }
+
+/* nsync_sem_wait_with_cancel_: [region: check note + register] [sleep = OP_SEMPD, then deregister] */
+int __real_nsync_sem_wait_with_cancel_ (void *w, struct timespec d, void *note) __attribute__ ((weak));
+int __wrap_nsync_sem_wait_with_cancel_ (void *w, struct timespec d, void *note) {
+	struct fiber *f = G->cur;
+	int r;
+	if (rt_sem_single_step && f && !f->noyield) {
+		park (OP_REGION, note, 0, 0, 0, 0, "swc");
+		f->noyield++; f->in_swc = 1;
+		r = __real_nsync_sem_wait_with_cancel_ (w, d, note);
+		f->in_swc = 0; f->noyield--;
+	} else r = __real_nsync_sem_wait_with_cancel_ (w, d, note);
+	return r;
+}
+/* the waiter pool is not modelled at L1/L2: its functions run without scheduling points */
+void *__real_nsync_waiter_new_ (void) __attribute__ ((weak));
+void __real_nsync_waiter_free_ (void *w) __attribute__ ((weak));
+void *__wrap_nsync_waiter_new_ (void) { struct fiber *f = G->cur; void *w; if (f) f->noyield++; w = __real_nsync_waiter_new_ (); if (f) f->noyield--; return w; }
+void __wrap_nsync_waiter_free_ (void *w) { struct fiber *f = G->cur; if (f) f->noyield++; __real_nsync_waiter_free_ (w); if (f) f->noyield--; }
+void *rt_tls_waiter (int t) { return G->f[t].tls_waiter; }
+int rt_stack_owner (const void *p) { int i; for (i = 0; i < G->nf; i++) if ((const char *) p >= G->f[i].stk && (const char *) p < G->f[i].stk + STK_SIZE) return i; return -1; }
+int rt_exit_is_step = 0;
 
 /* ------------------------------------------------------------------ init / snapshot / reset */
 void rt_init (void) {
@@ -755,7 +796,7 @@ void rt_reset (void) {
 	for (i = 0; i < G->nf; i++) G->f[i].state = F_FREE;
 	G->nf = 0; G->cur = NULL; G->steps = 0; G->now = RT_T0;
 	G->brk = 0; G->nblk = 0; G->malloc_count = 0; G->fail_at = 0;
-	G->nmu = 0; G->has_viol = 0; G->crashed = 0;
+	G->nmu = 0; G->has_viol = 0; G->crashed = 0; G->ndead = 0;
 	G->nnames = G->nnames_snap;
 	if (G->hb_on) { memset (G->ha, 0, sizeof G->ha); memset (G->hp, 0, sizeof G->hp); }
 }
